@@ -98,6 +98,14 @@ def impl_vocab(case):
         s_macro = s_macro[0] if s_macro else None
         s_reg = ctx['registers'][0]['match'] if 'registers' in ctx else None
         s_lab = ctx['compiler_labels'][0]['match'] if 'compiler_labels' in ctx else None
+        # the look-ahead that ends an instruction: "... or the next operation (instruction or macro)"
+        def ops_alternation(pat):
+            pre, post = '(?i)(?=(?:\\s*\\;|\\s*$|', '))'
+            if not (pat.startswith(pre) and pat.endswith(post)):
+                raise SystemExit(f'unexpected end-of-instruction pattern {pat[:60]!r}')
+            return '(?i)(?:' + pat[len(pre):-len(post)] + ')'
+        v_ops = [ops_alternation(g['instructions']['end'])] + ([ops_alternation(g['macros']['end'])] if 'macros' in g else [])
+        s_ops = ops_alternation(ctx['pop_instruction_end'][0]['match'])
         # the vscode grammar must really use the rules it defines
         main_includes = [p.get('include') for p in g['main']['patterns']]
 
@@ -117,10 +125,13 @@ def impl_vocab(case):
                 raise SystemExit(f'grammar rule {rule} is defined but never included')
         out = {'vscode': [], 'sublime': []}
         for pr in case['probes']:
+            vo = {_search(x, pr) for x in v_ops}
+            if len(vo) != 1:
+                raise SystemExit('the vscode end-of-instruction look-aheads of instructions and macros disagree')
             out['vscode'].append([_search(v_instr, pr), bool(v_macro) and _search(v_macro, pr), bool(v_reg) and _search(v_reg, pr),
-                                  bool(v_lab) and _search(v_lab, pr)])
+                                  bool(v_lab) and _search(v_lab, pr), vo.pop()])
             out['sublime'].append([_search(s_instr, pr), bool(s_macro) and _search(s_macro, pr), bool(s_reg) and _search(s_reg, pr),
-                                   bool(s_lab) and _search(s_lab, pr)])
+                                   bool(s_lab) and _search(s_lab, pr), _search(s_ops, pr)])
         # directive keywords are classified as directives
         dir_rules = json.dumps(g['directives'])
         for d in DIRECTIVES + DATATYPES:
